@@ -131,6 +131,9 @@ func genLattice(g *Rng, idx uint64) *Plan {
 	if g.Bool(0.12) {
 		spec.NSDecls = winNSDecls(g, x)
 	}
+	if g.Bool(0.1) {
+		spec.QualAttrs = winNSDecls(g, x) // the same names and instants as extension attributes in a foreign namespace, signed by the IdP
+	}
 	st.Spec = spec
 	return &Plan{Knobs: mustJSON(k), Steps: []json.RawMessage{mustJSON(st)}}
 }
@@ -263,6 +266,9 @@ func genWindows(g *Rng, tier string) *Plan {
 		}
 		if g.Bool(0.12) {
 			spec.NSDecls = winNSDecls(g, x)
+		}
+		if g.Bool(0.1) {
+			spec.QualAttrs = winNSDecls(g, x)
 		}
 		st.Spec = spec
 		p.Steps = append(p.Steps, mustJSON(st))
